@@ -210,6 +210,15 @@ def random_script(rng, level, n):
                 else:
                     pk.append(feedback(bound))
             steps.append(step("orcp", now=now, pk=pk))
+            srs = [x for x in pk if x.get("t") == "sr" and x.get("ss") in bound] if level == "icpt" else []
+            if srs and rng.random() < 0.5:
+                # the remote end answers at once: the RR that echoes this SR is read while the transport is still inside the
+                # Write of the SR (slow transport, reader on another goroutine) - the SR counts as sent all the same
+                now += rng.choice([1, 20, 500])
+                x = srs[-1]
+                echo_rr = pkt("rr", ss=rng.choice(FOREIGN), rp=[rep(x["ss"], lost=0, frac=0, hi=5, jit=0, lsr=x["ntp"], dlsr=delay())])
+                steps.append(dict(step("ircp", now=now, pk=[echo_rr]), inw=True))
+                steps.append(step("get", s=x["ss"]))
         else:
             steps.append(step("get", s=rng.choice(everyone)))
     for s in everyone[:4]:
